@@ -412,3 +412,1250 @@ def localPrecheckGetPeeled : Bool := {b(d["local_precheck_get_peeled"])}
 end Dulwich.Gen.ReceivePack
 """
     return {"ReceivePack": src}
+
+
+# ------------------------------------------------------------------------------------------------
+# fixture: a fixed pool of independent commits (ids are stable across runs)
+
+ZERO40 = b"0" * 40
+ZERO64 = b"0" * 64
+N_POOL = 8          # c0..c3 are in every server store; c4,c5 travel in packs; c6,c7 are never sent
+BASE = (0, 1, 2, 3)
+
+_pool = None
+
+
+def pool():
+    """[(blob, tree, commit)] * N_POOL"""
+    global _pool
+    if _pool is None:
+        from dulwich.objects import Blob, Commit, Tree
+        out = []
+        for i in range(N_POOL):
+            b = Blob.from_string(b"blob %d\n" % i)
+            t = Tree()
+            t.add(b"f", 0o100644, b.id)
+            c = Commit()
+            c.tree = t.id
+            c.author = c.committer = b"v <v@example.com>"
+            c.author_time = c.commit_time = 1000 + i
+            c.author_timezone = c.commit_timezone = 0
+            c.message = b"c%d" % i
+            c.parents = []
+            out.append((b, t, c))
+        _pool = out
+    return _pool
+
+
+def cid(i: int) -> bytes:
+    return pool()[i][2].id
+
+
+def pack_bytes(idxs, variant="ok") -> bytes:
+    """Pack with the objects of the commits `idxs`; variants produce the unpack failures of the exception family."""
+    from dulwich.object_format import DEFAULT_OBJECT_FORMAT
+    from dulwich.pack import write_pack_objects
+    if variant == "nopack":
+        return b""
+    if variant in ("thin-missing-base", "garbage-object"):
+        # hand-made pack: one REF_DELTA against a base nobody has / one commit that does not parse
+        if variant == "thin-missing-base":
+            entries = [(7, b"\x05\x06\x90\x05\x01!", b"1" * 40)]   # delta: copy 5 bytes of the base, insert "!"
+        else:
+            entries = [(1, b"garbage", None)]
+        body = b"PACK" + struct.pack(">II", 2, len(entries))
+        for typ, data, base in entries:
+            size = len(data)
+            c = (typ << 4) | (size & 0xF)
+            size >>= 4
+            hdr = bytearray()
+            while size:
+                hdr.append(c | 0x80)
+                c = size & 0x7F
+                size >>= 7
+            hdr.append(c)
+            body += bytes(hdr)
+            if typ == 7:
+                body += bytes.fromhex(base.decode())
+            body += zlib.compress(data)
+        return body + hashlib.sha1(body).digest()
+    f = io.BytesIO()
+    objs = [o for i in idxs for o in pool()[i]]
+    write_pack_objects(f.write, [(o, None) for o in objs], object_format=DEFAULT_OBJECT_FORMAT)
+    data = f.getvalue()
+    if variant == "corrupt":
+        data = data[:-1] + bytes([data[-1] ^ 1])
+    elif variant == "truncated":
+        data = data[:-25]
+    return data
+
+
+class ServerDir:
+    """One bare disk repository, reset to a given state before every case (init is the expensive part)."""
+
+    def __init__(self, path: Path):
+        from dulwich.repo import Repo
+        self.path = Path(path)
+        if self.path.exists():
+            shutil.rmtree(self.path)
+        r = Repo.init_bare(str(self.path), mkdir=True)
+        for i in BASE:
+            for o in pool()[i]:
+                r.object_store.add_object(o)
+        r.close()
+        self.template = {str(p.relative_to(self.path)) for p in (self.path / "objects").rglob("*") if p.is_file()}
+
+    def reset(self, refs: dict, extra_store=(), packed=(), loose_after=None):
+        """refs: {name: id}; `packed`: pack all refs present so far into packed-refs (with peeled header) and then
+        write `loose_after` {name: id} as loose refs on top."""
+        from dulwich.repo import Repo
+        for p in list((self.path / "objects").rglob("*")):
+            if p.is_file() and str(p.relative_to(self.path)) not in self.template:
+                p.unlink()
+        shutil.rmtree(self.path / "refs", ignore_errors=True)
+        (self.path / "refs" / "heads").mkdir(parents=True)
+        (self.path / "refs" / "tags").mkdir(parents=True)
+        for f in ("packed-refs", "hooks/update", "hooks/pre-receive"):
+            try:
+                (self.path / f).unlink()
+            except FileNotFoundError:
+                pass
+        shutil.rmtree(self.path / "logs", ignore_errors=True)
+        r = Repo(str(self.path))
+        for i in extra_store:
+            for o in pool()[i]:
+                r.object_store.add_object(o)
+        for n, v in refs.items():
+            _write_ref(self.path, n, v)
+        if packed:
+            r.refs.pack_refs(all=True)
+            for n, v in (loose_after or {}).items():
+                _write_ref(self.path, n, v)
+        r.close()
+
+    def open(self):
+        from dulwich.repo import Repo
+        return Repo(str(self.path))
+
+
+def _write_ref(root: Path, name: bytes, value: bytes):
+    p = root / os.fsdecode(name)
+    p.parent.mkdir(parents=True, exist_ok=True)
+    p.write_bytes(value + b"\n")
+
+
+def read_refs(repo) -> dict:
+    """All refs under refs/ as raw stored values (no HEAD)."""
+    out = {}
+    for n in repo.refs.allkeys():
+        if n == b"HEAD":
+            continue
+        v = repo.refs.read_ref(n)
+        if v is not None:
+            out[bytes(n)] = bytes(v)
+    return out
+
+
+def in_store(repo, sha: bytes) -> bool:
+    try:
+        return sha in repo.object_store
+    except Exception:
+        return False
+
+
+# ------------------------------------------------------------------------------------------------
+# exception class names as the model sees them
+
+def mro_names(exc_type) -> list[bytes]:
+    names = []
+    for k in exc_type.__mro__:
+        if k is object:
+            continue
+        names.append(k.__name__)
+        if k.__module__ not in ("builtins",):
+            names.append(f"{k.__module__.split('.')[-1]}.{k.__name__}")
+        if k is OSError:
+            names += ["IOError", "socket.error", "EnvironmentError"]
+    seen, out = set(), []
+    for n in names:
+        if n not in seen:
+            seen.add(n)
+            out.append(n.encode())
+    return out
+
+
+def fault_mro(kind: str) -> list[bytes]:
+    from dulwich.errors import RefFormatError
+    return {"io": mro_names(NotADirectoryError), "key": mro_names(KeyError), "format": mro_names(RefFormatError)}[kind]
+
+
+# ------------------------------------------------------------------------------------------------
+# wire path: the real ReceivePackHandler over an in-memory pkt-line transport
+
+BAD_NAMES = [b"refs/heads/a..b", b"refs/heads/x.lock", b"foo", b"refs/heads/sp~1"]
+DF_PARENT = b"refs/heads/df"           # loose ref, never commanded
+DF_CHILD = b"refs/heads/df/x"          # commanding it fails with an OSError (directory/file conflict)
+NAMES = [b"refs/heads/m", b"refs/heads/a", b"refs/heads/b", b"refs/tags/t", b"refs/heads/n/x", b"refs/heads/q"]
+
+
+class _DenyHook:
+    def __init__(self, deny: dict):
+        self.deny = deny
+
+    def execute(self, *args):
+        from dulwich.errors import HookError
+        if len(args) == 3:
+            ref = bytes(args[0])
+            if ref in self.deny:
+                raise HookError(self.deny[ref].decode("latin-1"))
+            return b"", b""
+        raise HookError("pre-receive says no")
+
+
+def wire_push(repo, case: dict) -> dict:
+    """Drive the real handler with the command list / capabilities / pack of `case`; parse the reply with the real
+    client code.  Returns the canonical observation."""
+    from dulwich import client as C
+    from dulwich.errors import GitProtocolError
+    from dulwich.protocol import Protocol, pkt_line
+    from dulwich.server import DictBackend, ReceivePackHandler
+    cmds = [(c[0].encode(), c[1].encode(), c[2].encode("latin-1")) for c in case["cmds"]]
+    caps = [c.encode() for c in case["caps"]]
+    inp = io.BytesIO()
+    first = True
+    for old, new, name in cmds:
+        line = old + b" " + new + b" " + name
+        if first and caps:
+            line += b"\0" + b" ".join(caps)
+        first = False
+        inp.write(pkt_line(line))
+    inp.write(pkt_line(None))
+    pk = case.get("pack", {"idx": [], "variant": "ok"})
+    inp.write(pack_bytes(pk["idx"], pk["variant"]))
+    inp.seek(0)
+    out = io.BytesIO()
+    obs: dict = {"unpack_exc": None, "unpack_called": False}
+    # environment instrumentation (no change to the code under test)
+    store = repo.object_store
+    orig_add = store.add_thin_pack
+
+    def add_thin_pack(*a, **k):
+        obs["unpack_called"] = True
+        try:
+            return orig_add(*a, **k)
+        except BaseException as e:
+            obs["unpack_exc"] = type(e)
+            raise
+    store.add_thin_pack = add_thin_pack
+    hooks = {k.encode("latin-1"): v.encode("latin-1") for k, v in case.get("hooks", {}).items()}
+    if hooks:
+        repo.hooks["update"] = _DenyHook(hooks)
+    if case.get("pre"):
+        repo.hooks["pre-receive"] = _DenyHook({})
+    inject = {k.encode("latin-1"): v for k, v in case.get("faults", {}).items() if v == "key"}
+    if inject:
+        refs = repo.refs
+        o_set, o_rm = refs.set_if_equals, refs.remove_if_equals
+
+        def set_if_equals(name, *a, **k):
+            if bytes(name) in inject:
+                raise KeyError(name)
+            return o_set(name, *a, **k)
+
+        def remove_if_equals(name, *a, **k):
+            if bytes(name) in inject:
+                raise KeyError(name)
+            return o_rm(name, *a, **k)
+        refs.set_if_equals, refs.remove_if_equals = set_if_equals, remove_if_equals
+    proto = Protocol(inp.read, out.write)
+    raised = None
+    try:
+        h = ReceivePackHandler(DictBackend({"/": repo}), ["/"], proto)
+        h.handle()
+    except GitProtocolError as e:
+        raised = ("protocol", type(e).__name__, str(e)[:120])
+    except Exception as e:
+        where = "unpack" if obs["unpack_exc"] is type(e) else "ref-error"
+        raised = (where, type(e).__name__, str(e)[:120])
+    obs["raised"] = raised
+    # client side: skip the advertisement, then the real tail handling + status parser
+    f = io.BytesIO(out.getvalue())
+    p = Protocol(f.read, lambda b: None)
+    list(p.read_pkt_seq())
+
+    class RecParser(C.ReportStatusParser):
+        def __init__(self):
+            super().__init__()
+            self.pkts = []
+
+        def handle_packet(self, pkt):
+            self.pkts.append(pkt)
+            super().handle_packet(pkt)
+    obs["pkts"] = None
+    obs["parsed"] = None
+    if raised is None and b"report-status" in caps and cmds:
+        cl = C.LocalGitClient()
+        cl.protocol_version = 0
+        rp = RecParser()
+        cl._report_status_parser = rp
+        try:
+            st = cl._handle_receive_pack_tail(p, set(caps))
+            obs["parsed"] = ("ok", {bytes(k): v for k, v in st.items()})
+        except C.SendPackError:
+            obs["parsed"] = ("err", "sendpack")
+        except GitProtocolError as e:
+            obs["parsed"] = ("err", "protocol:" + type(e).__name__)
+        except ValueError:
+            obs["parsed"] = ("err", "value")
+        obs["pkts"] = rp.pkts
+        obs["order"] = [s for s in rp._ref_statuses]
+    obs["leftover"] = len(f.read())
+    return obs
+
+
+def canon_real_wire(case, obs, post_refs, repo) -> str:
+    raised = obs["raised"][0] if obs["raised"] else "-"
+    if obs["pkts"] is None:
+        report = "none"
+    else:
+        parts = []
+        for pk in obs["pkts"]:
+            if pk is None:
+                parts.append("flush")
+            else:
+                if pk.startswith(b"unpack ") and pk.strip() != b"unpack ok" and b"pre-receive" not in pk:
+                    pk = b"unpack error\n"
+                parts.append(hx(pk))
+        if parts and parts[-1] == "flush":
+            parts.pop()     # the flush-pkt reaches the parser only on the side-band path
+        report = ";".join(parts) if parts else "-"
+    if obs["parsed"] is None:
+        parsed = "none"
+    elif obs["parsed"][0] == "err":
+        parsed = "err:" + obs["parsed"][1].split(":")[0]
+    else:
+        parsed = "ok:" + (",".join(f"{hx(k)}={'ok' if v is None else hx(v.encode('utf-8'))}" for k, v in obs["parsed"][1].items()) or "-")
+    refs = ",".join(f"{hx(k)}={hx(v)}" for k, v in sorted(post_refs.items())) or "-"
+    return f"raised={raised} report={report} parsed={parsed} refs={refs}"
+
+
+def canon_model_wire(line: str) -> tuple[str, dict]:
+    d = dict(tok.split("=", 1) for tok in line.split(" "))
+    refs = sorted(d["refs"].split(",")) if d["refs"] != "-" else []
+    parsed = d["parsed"]
+    if parsed.startswith("ok:"):
+        # python dict semantics: a later entry for the same name overwrites the value, keeps the position
+        seen = {}
+        for it in ([] if parsed == "ok:-" else parsed[3:].split(",")):
+            k, v = it.split("=")
+            seen[k] = v
+        parsed = "ok:" + (",".join(f"{k}={v}" for k, v in seen.items()) or "-")
+    report = d["report"]
+    if report.endswith(";flush"):
+        report = report[:-6]
+    elif report == "flush":
+        report = "-"
+    return (f"raised={d['raised']} report={report} parsed={parsed} refs={','.join(refs) or '-'}", d)
+
+
+def model_line_wire(case, pre_refs, pre_store_ids, unpack) -> str:
+    def lst(xs):
+        return ",".join(xs) or "-"
+    caps = lst([hx(c.encode()) for c in case["caps"]])
+    refs = lst([f"{hx(k)}={hx(v)}" for k, v in sorted(pre_refs.items())])
+    store = lst([hx(i) for i in pre_store_ids])
+    hooks = lst([f"{hx(k.encode('latin-1'))}={hx(v.encode('latin-1'))}" for k, v in case.get("hooks", {}).items()])
+    faults = lst([f"{hx(k.encode('latin-1'))}=" + ";".join(hx(x) for x in fault_mro(v)) for k, v in case.get("faults", {}).items()])
+    cmds = lst([f"{hx(c[0].encode())}:{hx(c[1].encode())}:{hx(c[2].encode('latin-1'))}" for c in case["cmds"]])
+    return f"c06.wire {case.get('flags', 'coded')} {1 if case.get('pre') else 0} {caps} {unpack} {refs} {store} {hooks} {faults} {cmds}"
+
+
+def candidate_ids(case) -> list[bytes]:
+    ids = {cid(i) for i in range(N_POOL)}
+    for c in case["cmds"]:
+        ids.add(c[0].encode())
+        ids.add(c[1].encode())
+    return sorted(ids)
+
+
+def run_wire_case(ctx, sd: ServerDir, case: dict, stream: str, lines: list, metas: list):
+    """Set the server up, push, observe, run the oracle; queue the model line for the batch compare."""
+    st = case["state"]
+    sd.reset({k.encode("latin-1"): v.encode() for k, v in st["refs"].items()}, extra_store=st.get("extra", ()),
+             packed=st.get("packed"), loose_after={k.encode("latin-1"): v.encode() for k, v in st.get("loose_after", {}).items()})
+    repo = sd.open()
+    try:
+        pre_refs = read_refs(repo)
+        cands = candidate_ids(case)
+        pre_store = [i for i in cands if in_store(repo, i)]
+        obs = wire_push(repo, case)
+    finally:
+        repo.close()
+    repo = sd.open()   # fresh instance: no caches from the handler's run
+    try:
+        post_refs = read_refs(repo)
+        post_store = {i for i in cands if in_store(repo, i)}
+        post_missing = {n: v for n, v in post_refs.items() if not in_store(repo, v)}
+    finally:
+        repo.close()
+    pk = case.get("pack", {"idx": [], "variant": "ok"})
+    if obs["unpack_exc"] is not None:
+        unpack = "exc:" + ",".join(hx(x) for x in mro_names(obs["unpack_exc"]))
+        if pk["variant"] == "ok":
+            ctx.disagree(stream + ".unpack-design", case, "well-formed pack unpacks", f"add_thin_pack raised {obs['unpack_exc'].__name__}")
+    else:
+        unpack = "ok:" + (",".join(hx(i) for i in sorted({o.id for i in pk["idx"] for o in pool()[i]} | {cid(i) for i in pk["idx"]})) or "")
+        if pk["variant"] != "ok" and obs["unpack_called"]:
+            ctx.disagree(stream + ".unpack-design", case, "malformed pack is refused", "add_thin_pack accepted it")
+    lines.append(model_line_wire(case, pre_refs, pre_store, unpack))
+    real = canon_real_wire(case, obs, post_refs, None)
+    metas.append((stream, case, real, obs, post_store))
+    oracle_wire(ctx, stream, case, pre_refs, set(pre_store), obs, post_refs, post_missing)
+    return obs, pre_refs, post_refs
+
+
+def oracle_wire(ctx, stream, case, pre_refs, pre_store, obs, post_refs, post_missing):
+    """The property's own words, on what the real handler did (independent of the model)."""
+    cmds = [(c[0].encode(), c[1].encode(), c[2].encode("latin-1")) for c in case["cmds"]]
+    caps = set(case["caps"])
+    names = [c[2] for c in cmds]
+    faults = {k.encode("latin-1"): v for k, v in case.get("faults", {}).items()}
+    pk = case.get("pack", {"idx": [], "variant": "ok"})
+    sent = {o.id for i in pk["idx"] for o in pool()[i]} if pk["variant"] == "ok" else set()
+    observable = "report-status" in caps
+    parsed_ok = obs["parsed"] is not None and obs["parsed"][0] == "ok"
+    statuses = obs["parsed"][1] if parsed_ok else {}
+    brief = {"case": case}
+
+    def reason(old, new, name):
+        cur = pre_refs.get(name, ZERO40)
+        bad = [i for i, c in enumerate(cmds) if faults.get(c[2]) == "format"]
+        if bad and obs["raised"] and obs["raised"][0] == "ref-error" and names.index(name) > bad[0]:
+            return "bad-refname"      # never reached: the handler died on the invalid name before it
+        if name in faults:
+            return {"io": "io-failure", "format": "bad-refname", "key": "injected-fault"}[faults[name]]
+        if cur != old:
+            return "stale-old"
+        return "unexplained"
+    # every ref target is in the object store afterwards
+    for n, v in sorted(post_missing.items()):
+        cls = None
+        hits = [c for c in cmds if c[2] == n and c[1] == v]
+        if hits and v not in pre_store and v not in sent:
+            cls = "wire-new-object-missing"
+        ctx.oracle_fail(stream, brief, f"after the push {n!r} names {v!r}, which the server's object store does not have", cls)
+    if len(set(names)) != len(names):
+        return   # several commands for one ref: only the correspondence and the store clause apply
+    applied = []
+    for old, new, name in cmds:
+        pre, post = pre_refs.get(name), post_refs.get(name)
+        cur = pre if pre is not None else ZERO40
+        target = None if new == ZERO40 else new
+        stale = cur != old
+        rep_ok = observable and parsed_ok and name in statuses and statuses[name] is None
+        if stale:
+            if post != pre:
+                ctx.oracle_fail(stream, brief, f"{name!r}: current value {cur!r} differs from the old value named {old!r}, yet the ref changed to {post!r}",
+                                "wire-stale-old-applied")
+            if rep_ok:
+                ctx.oracle_fail(stream, brief, f"{name!r}: current value {cur!r} differs from the old value named {old!r}, yet the push is reported ok (ref is {post!r})",
+                                "wire-stale-old-reported-ok")
+        else:
+            if rep_ok and post != target:
+                ctx.oracle_fail(stream, brief, f"{name!r}: reported ok but the ref holds {post!r}, not the requested {target!r}", "wire-ok-but-not-applied")
+            if observable and old != new and post == target and not rep_ok:
+                cls = "wire-applied-but-not-reported"
+                if obs["raised"] and obs["raised"][0] == "ref-error" and any(v == "format" for v in faults.values()):
+                    cls = "wire-bad-refname-aborts-push"
+                elif obs["raised"] is None and obs["parsed"] is not None and obs["parsed"][0] == "err":
+                    cls = "wire-status-unparseable"
+                ctx.oracle_fail(stream, brief, f"{name!r}: the ref now holds the requested {target!r} but no success was reported "
+                                f"(handler: {obs['raised']}, statuses: {obs['parsed']})", cls)
+        if post == target and not (pre == post):
+            applied.append(name)
+    if "atomic" in caps:
+        all_hold = all(post_refs.get(n) == (None if new == ZERO40 else new) for _, new, n in cmds)
+        none_changed = post_refs == pre_refs
+        if not all_hold and not none_changed:
+            for old, new, name in cmds:
+                if post_refs.get(name) != (None if new == ZERO40 else new):
+                    ctx.oracle_fail(stream, brief, f"atomic push applied {applied} but not {name!r}", "wire-atomic-partial-apply-" + reason(old, new, name))
+
+
+# ------------------------------------------------------------------------------------------------
+# generators
+
+CAPS = ["report-status", "side-band-64k", "atomic", "delete-refs", "ofs-delta", "quiet"]
+
+
+def gen_state(rng) -> dict:
+    refs = {}
+    for n in NAMES:
+        if rng.random() < 0.55:
+            refs[n.decode()] = cid(rng.choice(BASE)).decode()
+    st = {"refs": refs, "extra": [4] if rng.random() < 0.15 else []}
+    if rng.random() < 0.3 and refs:
+        st["packed"] = True
+        st["loose_after"] = {n: cid(rng.choice(BASE)).decode() for n in refs if rng.random() < 0.3}
+    if rng.random() < 0.35:
+        # a loose ref whose children cannot be created (directory/file conflict)
+        st.setdefault("loose_after" if st.get("packed") else "refs", {})[DF_PARENT.decode()] = cid(0).decode()
+    return st
+
+
+def current_of(st, name: str):
+    return st.get("loose_after", {}).get(name, st["refs"].get(name))
+
+
+def gen_wire_case(rng, force=None) -> dict:
+    st = gen_state(rng)
+    n = rng.choice([1, 1, 2, 2, 3, 4])
+    pool_names = [x.decode() for x in NAMES]
+    rng.shuffle(pool_names)
+    names = pool_names[:n]
+    if rng.random() < 0.05 and n >= 2:
+        names[-1] = names[0]                     # two commands for one ref
+    cmds, pack, faults, tags = [], set(), {}, []
+    has_df = current_of(st, DF_PARENT.decode()) is not None
+    atomic = rng.random() < 0.4
+    for name in names:
+        cur = current_of(st, name)
+        r = rng.random()
+        if r < 0.07:
+            name = rng.choice(BAD_NAMES).decode()
+            faults[name] = "format"
+            cur = None
+            tags.append("bad-name")
+        elif r < 0.15 and has_df:
+            name = DF_CHILD.decode()
+            faults[name] = "io"
+            cur = None
+            tags.append("df-conflict")
+        elif r < 0.18 and not atomic:
+            faults[name] = "key"
+            tags.append("inject-key")
+        if name in [c[2] for c in cmds] and name in faults:
+            continue
+        # old value
+        r = rng.random()
+        if r < 0.62:
+            old = cur or ZERO40.decode()
+            tags.append("old-match")
+        elif r < 0.8:
+            old = rng.choice([cid(i).decode() for i in range(6) if cid(i).decode() != cur])
+            tags.append("old-stale")
+        elif r < 0.9:
+            old = ZERO40.decode()
+            tags.append("old-zero")
+        elif r < 0.95:
+            old = ZERO64.decode()
+            tags.append("old-zero64")
+        else:
+            old = (cur or cid(1).decode()).upper()
+            tags.append("old-upper")
+        # new value
+        r = rng.random()
+        if r < 0.3:
+            new = cid(rng.choice(BASE)).decode()
+            tags.append("new-in-store")
+        elif r < 0.55:
+            i = rng.choice([4, 5])
+            new = cid(i).decode()
+            pack.add(i)
+            tags.append("new-in-pack")
+        elif r < 0.7:
+            new = rng.choice([cid(6).decode(), cid(7).decode(), "9" * 40, cid(4).decode()])
+            tags.append("new-absent" if new != cid(4).decode() or 4 not in st["extra"] else "new-in-store")
+        elif r < 0.9:
+            new = ZERO40.decode()
+            tags.append("delete")
+        elif r < 0.94:
+            new = ZERO64.decode()
+            tags.append("new-zero64")
+        elif r < 0.97:
+            new = cur or cid(2).decode()
+            tags.append("new-same")
+        else:
+            new = cid(rng.choice(BASE)).decode().upper()
+            tags.append("new-upper")
+        cmds.append([old, new, name])
+    caps = [c for c in CAPS if c != "atomic" and rng.random() < (0.8 if c == "report-status" else 0.4)]
+    if atomic:
+        caps.append("atomic")
+    rng.shuffle(caps)
+    r = rng.random()
+    if r < 0.03:
+        caps.append("bogus-cap")
+        tags.append("cap-unknown")
+    elif r < 0.06:
+        caps.append("agent=git/2.39.5")
+    variant = "ok"
+    r = rng.random()
+    if r < 0.04:
+        variant = "corrupt"
+    elif r < 0.06:
+        variant = "truncated"
+    elif r < 0.08:
+        variant = "thin-missing-base"
+    elif r < 0.09:
+        variant = "garbage-object"
+    elif r < 0.1:
+        variant = "nopack"
+    case = {"path": "wire", "state": st, "cmds": cmds, "caps": caps, "pack": {"idx": sorted(pack), "variant": variant}}
+    if faults:
+        case["faults"] = faults
+    if rng.random() < 0.08:
+        victims = [c[2] for c in cmds if rng.random() < 0.6]
+        if victims:
+            case["hooks"] = {v: rng.choice(["denied by policy", "no\n", "okay", " spaced  msg "]) for v in victims}
+            tags.append("update-hook")
+    if rng.random() < 0.03:
+        case["pre"] = True
+        tags.append("pre-receive")
+    case["tags"] = sorted(set(tags) | {f"n={len(cmds)}", "atomic" if atomic else "plain", "pack-" + variant})
+    return case
+
+
+FIXED_WIRE = [
+    # F5 witnesses (DESIGN §7): stale push answered ok; ref set to an object the server does not have; atomic partial
+    {"path": "wire", "state": {"refs": {"refs/heads/m": "@2"}}, "cmds": [["@1", "@3", "refs/heads/m"]], "caps": ["report-status"]},
+    {"path": "wire", "state": {"refs": {}}, "cmds": [["@z", "9" * 40, "refs/heads/x"]], "caps": ["report-status"]},
+    {"path": "wire", "state": {"refs": {"refs/heads/m": "@2"}}, "cmds": [["@z", "@1", "refs/heads/x"], ["@1", "@3", "refs/heads/m"]],
+     "caps": ["report-status", "atomic"]},
+    {"path": "wire", "state": {"refs": {}}, "cmds": [["@z", "@1", "refs/heads/x"], ["@z", "@1", "refs/heads/a..b"]],
+     "caps": ["report-status"], "faults": {"refs/heads/a..b": "format"}},
+    # plain successes
+    {"path": "wire", "state": {"refs": {"refs/heads/m": "@2"}}, "cmds": [["@2", "@4", "refs/heads/m"], ["@z", "@5", "refs/tags/t"]],
+     "caps": ["report-status", "side-band-64k"], "pack": {"idx": [4, 5], "variant": "ok"}},
+    {"path": "wire", "state": {"refs": {"refs/heads/m": "@2"}}, "cmds": [["@2", "@z", "refs/heads/m"]], "caps": ["report-status", "delete-refs"]},
+    {"path": "wire", "state": {"refs": {"refs/heads/m": "@2"}}, "cmds": [["@2", "@3", "refs/heads/m"]], "caps": []},
+]
+
+
+def expand(case: dict) -> dict:
+    """@i -> id of pool commit i, @z -> zero sha (corpus files and fixed cases are written with these)."""
+    def e(v):
+        if isinstance(v, str) and v.startswith("@"):
+            return ZERO40.decode() if v == "@z" else cid(int(v[1:])).decode()
+        return v
+    c = json.loads(json.dumps(case))
+    for k in ("refs", "loose_after"):
+        if k in c.get("state", {}):
+            c["state"][k] = {n: e(v) for n, v in c["state"][k].items()}
+    if "racer" in c:
+        c["racer"] = [[e(x) for x in op] for op in c["racer"]]
+    c["cmds"] = [[e(x) for x in cmd] for cmd in c["cmds"]]
+    return c
+
+
+# ------------------------------------------------------------------------------------------------
+
+def compare_wire_batch(ctx, lines, metas):
+    outs = ctx.driver.batch(lines)
+    for (stream, case, real, obs, post_store), mo in zip(metas, outs):
+        model, d = canon_model_wire(mo) if mo.startswith("raised=") else (mo, {})
+        tags = case.get("tags", [])
+        ctx.count(stream, json.dumps(case, sort_keys=True), True, None)
+        for t in tags:
+            ctx.hist.setdefault(stream, {})
+            ctx.hist[stream][t] = ctx.hist[stream].get(t, 0) + 1
+        if model != real:
+            ctx.disagree(stream, case, model, real, "wire")
+            continue
+        if d.get("raised") == "-" and obs["unpack_exc"] is None and d.get("instore", "-") != "-":
+            want = ",".join("1" if c[1].encode() in post_store else "0" for c in case["cmds"])
+            if want != d["instore"]:
+                ctx.disagree(stream + ".store", case, d["instore"], want, "wire")
+        if obs.get("order") is not None and obs["raised"] is None and obs["parsed"] and obs["parsed"][0] == "ok" and not case.get("pre"):
+            # (iv) one status line per command, in command order
+            got = [s.split(b" ")[1] for s in obs["order"] if b" " in s]
+            if got != [c[2].encode("latin-1") for c in case["cmds"]]:
+                ctx.oracle_fail(stream, {"case": case}, f"status lines {got} are not one per command in order", "wire-status-order")
+
+
+def _stream_wire(ctx, sd, n, stream="wire"):
+    rng = ctx.rng
+    lines, metas = [], []
+    cases = [expand(c) for c in FIXED_WIRE] if stream == "wire" else []
+    cases += [gen_wire_case(rng) for _ in range(n)]
+    for case in cases:
+        obs, pre, post = run_wire_case(ctx, sd, case, stream, lines, metas)
+        if len(ctx.samples) < 3 and len(case["cmds"]) >= 2:
+            ctx.sample({"stream": stream, "case": case, "handler_raised": obs["raised"], "client_status": repr(obs["parsed"]),
+                        "refs_before": {k.decode(): v.decode() for k, v in pre.items()},
+                        "refs_after": {k.decode(): v.decode() for k, v in post.items()}})
+    compare_wire_batch(ctx, lines, metas)
+
+
+# ------------------------------------------------------------------------------------------------
+# in-process path: the real LocalGitClient.send_pack; a second pusher acts inside the update_refs callback, i.e.
+# between the client's read of the refs and its compare-and-swap (a deterministic schedule of the race)
+
+def packed_names(path: Path) -> set:
+    """names in packed-refs when the file carries the `peeled` header (only then get_peeled answers)"""
+    f = Path(path) / "packed-refs"
+    if not f.exists():
+        return set()
+    lines = f.read_bytes().splitlines()
+    if not lines or not (lines[0].startswith(b"# pack-refs with:") and b"peeled" in lines[0]):
+        return set()
+    return {ln.split(b" ", 1)[1] for ln in lines[1:] if ln and not ln.startswith((b"#", b"^")) and b" " in ln}
+
+
+def local_msg_kind(msg, ex) -> str:
+    if msg is None:
+        return "ok"
+    if msg.startswith(ex["local_set_prefix"]):
+        return "set"
+    if msg.startswith(ex["local_remove"]):
+        return "remove"
+    if msg.startswith(ex["local_atomic"]):
+        return "atomic"
+    return "other:" + msg[:40]
+
+
+def local_push(sd: ServerDir, case: dict, ex: dict) -> dict:
+    from dulwich.client import LocalGitClient
+    from dulwich.pack import pack_objects_to_data
+    from dulwich.repo import Repo
+    cmds = [(c[0].encode("latin-1"), c[1].encode()) for c in case["cmds"]]
+    obs: dict = {"snap": None, "raised": None}
+
+    def update_refs(refs):
+        obs["snap"] = {bytes(k): bytes(v) for k, v in refs.items() if k != b"HEAD"}
+        other = Repo(str(sd.path))           # the second pusher
+        try:
+            for op in case.get("racer", []):
+                n = op[1].encode("latin-1")
+                if op[0] == "set":
+                    other.refs.set_if_equals(n, None, op[2].encode())
+                else:
+                    other.refs.remove_if_equals(n, None)
+        finally:
+            other.close()
+        r2 = Repo(str(sd.path))
+        try:
+            obs["cur"] = read_refs(r2)
+            obs["cur_store"] = [i for i in candidate_ids_local(case) if in_store(r2, i)]
+        finally:
+            r2.close()
+        obs["packed"] = packed_names(sd.path)
+        return dict(cmds)
+
+    def generate_pack_data(have, want, *, ofs_delta=False, progress=None):
+        obs["have"], obs["want"] = set(have), set(want)
+        objs = [o for i in case.get("pack", []) for o in pool()[i]]
+        return pack_objects_to_data([(o, None) for o in objs])
+    try:
+        res = LocalGitClient().send_pack(str(sd.path), update_refs, generate_pack_data, atomic=bool(case.get("atomic")))
+        obs["ref_status"] = None if res.ref_status is None else {bytes(k): v for k, v in res.ref_status.items()}
+    except Exception as e:
+        obs["raised"] = (type(e).__name__, str(e)[:120])
+        obs["ref_status"] = None
+    return obs
+
+
+def candidate_ids_local(case) -> list[bytes]:
+    ids = {cid(i) for i in range(N_POOL)}
+    for c in case["cmds"]:
+        ids.add(c[1].encode())
+    return sorted(ids)
+
+
+def run_local_case(ctx, sd: ServerDir, case: dict, ex: dict, stream: str, lines: list, metas: list):
+    st = case["state"]
+    sd.reset({k.encode("latin-1"): v.encode() for k, v in st["refs"].items()}, extra_store=st.get("extra", ()),
+             packed=st.get("packed"), loose_after={k.encode("latin-1"): v.encode() for k, v in st.get("loose_after", {}).items()})
+    obs = local_push(sd, case, ex)
+    repo = sd.open()
+    try:
+        post_refs = read_refs(repo)
+        post_missing = {n: v for n, v in post_refs.items() if not in_store(repo, v)}
+        post_store = {i for i in candidate_ids_local(case) if in_store(repo, i)}
+    finally:
+        repo.close()
+    if obs["snap"] is None:
+        ctx.disagree(stream, case, "update_refs is called", f"not called: {obs['raised']}", "local")
+        return obs, post_refs
+
+    def lst(xs):
+        return ",".join(xs) or "-"
+    snap, cur = obs["snap"], obs["cur"]
+    packids = sorted({o.id for i in case.get("pack", []) for o in pool()[i]})
+    line = "c06.local {} {} {} {} {} {} {}".format(
+        1 if case.get("atomic") else 0,
+        lst([f"{hx(k)}={hx(v)}" for k, v in snap.items()]),
+        lst([f"{hx(k)}={hx(v)}" for k, v in sorted(cur.items())]),
+        lst([hx(n) for n in sorted(obs["packed"])]),
+        lst([hx(i) for i in obs["cur_store"]]),
+        lst([hx(i) for i in packids]),
+        lst([f"{hx(c[0].encode('latin-1'))}={hx(c[1].encode())}" for c in case["cmds"]]))
+    lines.append(line)
+    # canonical real observation
+    if obs["raised"]:
+        status = "raised:" + obs["raised"][0]
+    elif not obs.get("have") and "have" not in obs:
+        status = "early"
+    else:
+        rs = obs["ref_status"] or {}
+        status = ",".join(f"{hx(c[0].encode('latin-1'))}:{local_msg_kind(rs.get(c[0].encode('latin-1')), ex)}" for c in case["cmds"]) or "-"
+    refs = ",".join(f"{hx(k)}={hx(v)}" for k, v in sorted(post_refs.items())) or "-"
+    instore = ",".join("1" if c[1].encode() in post_store else "0" for c in case["cmds"]) or "-"
+    metas.append((stream, case, f"status={status} refs={refs} instore={instore}"))
+    oracle_local(ctx, stream, case, obs, post_refs, post_missing)
+    return obs, post_refs
+
+
+def oracle_local(ctx, stream, case, obs, post_refs, post_missing, prefix="local"):
+    """Oracle for pushes made by an honest client (old values = what it read): the in-process path
+    (prefix local), and the real wire client against a dulwich (prefix wire) or C git (prefix gitsrv) server."""
+    cmds = [(c[0].encode("latin-1"), c[1].encode()) for c in case["cmds"]]
+    snap, cur = obs["snap"], obs["cur"]
+    brief = {"case": case}
+    raced = bool(case.get("racer"))
+    sent = {o.id for i in case.get("pack", []) for o in pool()[i]}
+    for n, v in sorted(post_missing.items()):
+        cls = None
+        if any(c[0] == n and c[1] == v for c in cmds) and v not in obs["cur_store"] and v not in sent:
+            cls = prefix + "-new-object-missing"
+        ctx.oracle_fail(stream, brief, f"after the {prefix} push {n!r} names {v!r}, which the target's object store does not have", cls)
+    if obs["raised"] and prefix == "local":
+        ctx.oracle_fail(stream, brief, f"LocalGitClient.send_pack raised {obs['raised']}", "local-raised-" + obs["raised"][0])
+        return
+    rs = obs["ref_status"] or {}
+    all_hold, untouched = True, post_refs == cur
+    for name, new in cmds:
+        old = snap.get(name, ZERO40)          # the old value the client names (its snapshot)
+        pre, post = cur.get(name), post_refs.get(name)
+        c = pre if pre is not None else ZERO40
+        target = None if new == ZERO40 else new
+        if old == new:
+            continue                           # not an update request (git drops these)
+        if prefix == "local":
+            rep_ok = rs.get(name) is None          # the local path only records failures
+        else:
+            rep_ok = not obs["raised"] and name in rs and rs[name] is None
+        stale = c != old
+        if post != target:
+            all_hold = False
+        if stale:
+            if post != pre:
+                ctx.oracle_fail(stream, brief, f"{name!r}: current {c!r} differs from the old value {old!r} the client read, yet the ref changed to {post!r}",
+                                prefix + "-stale-old-applied")
+            if rep_ok:
+                ctx.oracle_fail(stream, brief, f"{name!r}: current {c!r} differs from the old value {old!r} the client read, yet success is reported",
+                                prefix + "-stale-old-reported-ok")
+        else:
+            if rep_ok and post != target:
+                ctx.oracle_fail(stream, brief, f"{name!r}: success reported but the ref holds {post!r}, not {target!r}", prefix + "-ok-but-not-applied")
+            if post == target and not rep_ok:
+                ctx.oracle_fail(stream, brief, f"{name!r}: the ref holds the requested {target!r} but the status is {rs.get(name)!r}",
+                                prefix + "-applied-but-not-reported")
+    if case.get("atomic") and not all_hold and not untouched:
+        if prefix == "local":
+            ctx.oracle_fail(stream, brief, "atomic local push applied some updates and not others",
+                            "local-atomic-partial-apply-race" if raced else "local-atomic-partial-apply")
+        else:
+            for name, new in cmds:
+                if post_refs.get(name) != (None if new == ZERO40 else new):
+                    why = "stale-old" if cur.get(name, ZERO40) != snap.get(name, ZERO40) else "unexplained"
+                    ctx.oracle_fail(stream, brief, f"atomic push applied some updates but not {name!r}", f"{prefix}-atomic-partial-apply-{why}")
+
+
+def gen_local_case(rng) -> dict:
+    st = gen_state(rng)
+    st["refs"].pop(DF_PARENT.decode(), None)
+    st.get("loose_after", {}).pop(DF_PARENT.decode(), None)
+    n = rng.choice([1, 2, 2, 3, 4])
+    names = [x.decode() for x in NAMES]
+    rng.shuffle(names)
+    names = names[:n]
+    cmds, pack, tags = [], set(), []
+    for name in names:
+        cur = current_of(st, name)
+        r = rng.random()
+        if r < 0.3:
+            new = cid(rng.choice(BASE)).decode()
+            tags.append("new-in-store")
+        elif r < 0.6:
+            i = rng.choice([4, 5])
+            new = cid(i).decode()
+            if rng.random() < 0.85:
+                pack.add(i)
+                tags.append("new-in-pack")
+            else:
+                tags.append("new-absent")
+        elif r < 0.68:
+            new = cid(6).decode()
+            tags.append("new-absent")
+        elif r < 0.9:
+            new = ZERO40.decode()
+            tags.append("delete")
+        else:
+            new = cur or cid(1).decode()
+            tags.append("new-same")
+        cmds.append([name, new])
+    racer = []
+    if rng.random() < 0.5:
+        for name in names + [rng.choice([x.decode() for x in NAMES])]:
+            if rng.random() < 0.5:
+                if rng.random() < 0.65:
+                    racer.append(["set", name, cid(rng.choice(BASE)).decode()])
+                else:
+                    racer.append(["del", name])
+        if racer:
+            tags.append("raced")
+    atomic = rng.random() < 0.45
+    case = {"path": "local", "state": st, "cmds": cmds, "pack": sorted(pack), "atomic": atomic, "racer": racer}
+    case["tags"] = sorted(set(tags) | {f"n={len(cmds)}", "atomic" if atomic else "plain", "packed" if st.get("packed") else "loose"})
+    return case
+
+
+FIXED_LOCAL = [
+    {"path": "local", "state": {"refs": {"refs/heads/m": "@2"}}, "cmds": [["refs/heads/m", "@4"]], "pack": [4], "atomic": False, "racer": []},
+    {"path": "local", "state": {"refs": {"refs/heads/m": "@2"}}, "cmds": [["refs/heads/m", "@3"]], "pack": [], "atomic": False,
+     "racer": [["set", "refs/heads/m", "@1"]]},
+    {"path": "local", "state": {"refs": {"refs/heads/m": "@2"}}, "cmds": [["refs/heads/x", "@1"], ["refs/heads/m", "@3"]], "pack": [], "atomic": True,
+     "racer": [["set", "refs/heads/m", "@1"]]},
+    {"path": "local", "state": {"refs": {"refs/heads/m": "@2"}, "packed": True}, "cmds": [["refs/heads/x", "@1"], ["refs/heads/m", "@3"]], "pack": [],
+     "atomic": True, "racer": [["set", "refs/heads/m", "@1"]]},
+    {"path": "local", "state": {"refs": {}}, "cmds": [["refs/heads/x", "@6"]], "pack": [], "atomic": False, "racer": []},
+]
+
+
+def compare_local_batch(ctx, lines, metas):
+    outs = ctx.driver.batch(lines)
+    for (stream, case, real), mo in zip(metas, outs):
+        ctx.count(stream, json.dumps(case, sort_keys=True), True, None)
+        for t in case.get("tags", []):
+            ctx.hist.setdefault(stream, {})
+            ctx.hist[stream][t] = ctx.hist[stream].get(t, 0) + 1
+        d = dict(tok.split("=", 1) for tok in mo.split(" ")) if mo.startswith("status=") else None
+        if d is None:
+            ctx.disagree(stream, case, mo, real, "local")
+            continue
+        refs = ",".join(sorted(d["refs"].split(","))) if d["refs"] != "-" else "-"
+        model = f"status={d['status']} refs={refs} instore={d['instore']}"
+        if model != real:
+            ctx.disagree(stream, case, model, real, "local")
+
+
+def _stream_local(ctx, sd, ex, n, stream="local"):
+    rng = ctx.rng
+    lines, metas = [], []
+    cases = [expand(c) for c in FIXED_LOCAL] if stream == "local" else []
+    cases += [gen_local_case(rng) for _ in range(n)]
+    for case in cases:
+        obs, post = run_local_case(ctx, sd, case, ex, stream, lines, metas)
+        if sum(1 for s in ctx.samples if s.get("stream") == stream) < 1 and case.get("racer") and len(case["cmds"]) >= 2:
+            ctx.sample({"stream": stream, "case": case, "ref_status": repr(obs.get("ref_status")),
+                        "refs_after": {k.decode(): v.decode() for k, v in post.items()}})
+    compare_local_batch(ctx, lines, metas)
+
+
+# ------------------------------------------------------------------------------------------------
+# end to end over a pipe: the real dulwich wire client (SubprocessGitClient.send_pack) against
+#   (a) the real dulwich ReceivePackHandler served by a child process, (b) C git's `git receive-pack`;
+# and C git's `git push` against the dulwich handler.  The second pusher again acts inside update_refs.
+
+def server_script(ctx) -> Path:
+    p = ctx.scratch / "dul_receive_pack.py"
+    if not p.exists():
+        p.write_text(
+            "import sys\n"
+            f"sys.path.insert(0, {str(core.REPO)!r})\n"
+            "from dulwich.server import ReceivePackHandler, serve_command\n"
+            "# invoked as: <this> [receive-pack] <path>\n"
+            "sys.exit(serve_command(ReceivePackHandler, argv=['dul-receive-pack', sys.argv[-1]]))\n")
+    return p
+
+
+def _SocketpairClient(path):
+    """The real TraditionalGitClient.send_pack talking over a socketpair to the real ReceivePackHandler running in a
+    thread of this process with a ReceivableProtocol, as dulwich's own TCP server does.  (Serving through
+    `serve_command` on stdin/stdout pipes cannot be used with the dulwich client: the handler's pack reader asks the
+    pipe for more bytes than the pack has while the client keeps its end open waiting for the report.)"""
+    import socket
+    import threading
+    from dulwich.client import TraditionalGitClient
+    from dulwich.protocol import Protocol, ReceivableProtocol
+    from dulwich.repo import Repo
+    from dulwich.server import DictBackend, ReceivePackHandler
+
+    class Client(TraditionalGitClient):
+        server_error = None
+
+        def _connect(self, cmd, path_, protocol_version=None):
+            csock, ssock = socket.socketpair()
+            csock.settimeout(30)
+            ssock.settimeout(30)
+            outer = self
+
+            def serve():
+                repo = Repo(str(path))
+                try:
+                    proto = ReceivableProtocol(ssock.recv, ssock.sendall)
+                    ReceivePackHandler(DictBackend({"/": repo}), ["/"], proto).handle()
+                except Exception as e:       # the handler died: the client sees a hang-up
+                    outer.server_error = (type(e).__name__, str(e)[:120])
+                finally:
+                    repo.close()
+                    try:
+                        ssock.shutdown(socket.SHUT_RDWR)
+                    except OSError:
+                        pass
+                    ssock.close()
+            t = threading.Thread(target=serve, daemon=True)
+            t.start()
+            rfile = csock.makefile("rb", -1)
+            wfile = csock.makefile("wb", 0)
+
+            def close():
+                rfile.close()
+                wfile.close()
+                csock.close()
+                t.join(30)
+            return Protocol(rfile.read, wfile.write, close), (lambda: True), None
+    return Client()
+
+
+def e2e_push(ctx, sd: ServerDir, case: dict, server: str) -> dict:
+    from dulwich.client import SubprocessGitClient
+    from dulwich.pack import pack_objects_to_data
+    from dulwich.repo import Repo
+    cmds = [(c[0].encode("latin-1"), c[1].encode()) for c in case["cmds"]]
+    obs: dict = {"snap": None, "raised": None, "ref_status": None}
+
+    def update_refs(refs):
+        obs["snap"] = {bytes(k): bytes(v) for k, v in refs.items() if k != b"HEAD" and not k.startswith(b"capabilities^")}
+        other = Repo(str(sd.path))
+        try:
+            for op in case.get("racer", []):
+                n = op[1].encode("latin-1")
+                if op[0] == "set":
+                    other.refs.set_if_equals(n, None, op[2].encode())
+                else:
+                    other.refs.remove_if_equals(n, None)
+        finally:
+            other.close()
+        r2 = Repo(str(sd.path))
+        try:
+            obs["cur"] = read_refs(r2)
+            obs["cur_store"] = [i for i in candidate_ids_local(case) if in_store(r2, i)]
+        finally:
+            r2.close()
+        return dict(cmds)
+
+    def generate_pack_data(have, want, *, ofs_delta=False, progress=None):
+        objs = [o for i in case.get("pack", []) for o in pool()[i]]
+        return pack_objects_to_data([(o, None) for o in objs])
+    if server == "dulwich":
+        cl = _SocketpairClient(sd.path)
+    else:
+        cl = SubprocessGitClient()
+    env_backup = dict(os.environ)
+    os.environ.update({k: v for k, v in core.clean_env().items() if k.startswith("GIT_") or k in ("HOME", "LC_ALL", "TZ")})
+    try:
+        res = cl.send_pack(str(sd.path).encode(), update_refs, generate_pack_data, atomic=bool(case.get("atomic")))
+        obs["ref_status"] = None if res.ref_status is None else {bytes(k): v for k, v in res.ref_status.items()}
+    except Exception as e:
+        obs["raised"] = (type(e).__name__, str(e)[:160])
+    finally:
+        os.environ.clear()
+        os.environ.update(env_backup)
+    return obs
+
+
+def run_e2e_case(ctx, sd, case, server, stream):
+    st = case["state"]
+    sd.reset({k.encode("latin-1"): v.encode() for k, v in st["refs"].items()}, extra_store=st.get("extra", ()),
+             packed=st.get("packed"), loose_after={k.encode("latin-1"): v.encode() for k, v in st.get("loose_after", {}).items()})
+    obs = e2e_push(ctx, sd, case, server)
+    repo = sd.open()
+    try:
+        post_refs = read_refs(repo)
+        post_missing = {n: v for n, v in post_refs.items() if not in_store(repo, v)}
+    finally:
+        repo.close()
+    ctx.count(stream, json.dumps(case, sort_keys=True), True, ("raced" if case.get("racer") else "quiet") + (":atomic" if case.get("atomic") else ""))
+    if obs["snap"] is None:
+        ctx.oracle_fail(stream, {"case": case}, f"the wire client never got the advertisement: {obs['raised']}", f"{server}-e2e-no-advertisement")
+        return obs
+    # third-party read back: C git must see the same refs
+    rc, out = core.sh(["git", "--git-dir", str(sd.path), "for-each-ref", "--format=%(refname) %(objectname)"], env=core.clean_env())
+    if rc == 0:
+        gitrefs = {ln.split(" ")[0].encode(): ln.split(" ")[1].encode() for ln in out.splitlines() if " " in ln and not ln.startswith(("warning", "error"))}
+        if gitrefs != post_refs and not post_missing:
+            ctx.oracle_fail(stream, {"case": case, "git": {k.decode(): v.decode() for k, v in gitrefs.items()}},
+                            "C git reads different refs from the server repository than dulwich does", "readback-differs")
+    oracle_local(ctx, stream, case, obs, post_refs, post_missing, prefix="wire" if server == "dulwich" else "gitsrv")
+    return obs
+
+
+def _stream_e2e(ctx, sd, n_dul, n_git):
+    rng = ctx.rng
+    fixed = [expand(c) for c in FIXED_LOCAL[:3]]
+    for server, n, stream in (("dulwich", n_dul, "e2e.dulwich-server"), ("git", n_git, "e2e.git-server")):
+        cases = fixed + [gen_local_case(rng) for _ in range(n)]
+        for case in cases:
+            if server == "git":
+                # C git refuses what it cannot verify; keep the store clause meaningful by not asking for absent objects
+                case = json.loads(json.dumps(case))
+            obs = run_e2e_case(ctx, sd, case, server, stream)
+            if sum(1 for s in ctx.samples if s.get("stream") == stream) < 1 and case.get("racer"):
+                ctx.sample({"stream": stream, "case": case, "client_raised": obs["raised"], "ref_status": repr(obs["ref_status"])})
+
+
+def _git_client_repo(ctx) -> Path:
+    """A C git repository holding the pool commits (the pushing side for `git push`)."""
+    p = ctx.scratch / "gitclient"
+    if not p.exists():
+        from dulwich.repo import Repo
+        r = Repo.init_bare(str(p), mkdir=True)
+        for i in range(N_POOL):
+            for o in pool()[i]:
+                r.object_store.add_object(o)
+        r.close()
+    return p
+
+
+def _stream_git_push(ctx, sd, n):
+    """C git as the client of the dulwich handler: git's own reading of the status report vs the refs."""
+    rng = ctx.rng
+    stream = "e2e.git-push"
+    client = _git_client_repo(ctx)
+    rp = f"{core.PY} {server_script(ctx)}"
+    for k in range(n):
+        st = gen_state(rng)
+        names = [x.decode() for x in NAMES]
+        rng.shuffle(names)
+        specs, want = [], {}
+        has_df = current_of(st, DF_PARENT.decode()) is not None
+        for name in names[: rng.choice([1, 2, 3])]:
+            cur = current_of(st, name)
+            r = rng.random()
+            if r < 0.25 and cur:
+                specs.append(f":{name}")
+                want[name] = None
+            elif r < 0.35 and has_df:
+                specs.append(f"+{cid(5).decode()}:{DF_CHILD.decode()}")
+                want[DF_CHILD.decode()] = cid(5).decode()
+            else:
+                i = rng.choice([1, 2, 4, 5])
+                if cid(i).decode() == cur:
+                    continue
+                specs.append(f"+{cid(i).decode()}:{name}")
+                want[name] = cid(i).decode()
+        if not specs:
+            continue
+        atomic = rng.random() < 0.4
+        case = {"path": "git-push", "state": st, "specs": specs, "atomic": atomic}
+        sd.reset({k.encode("latin-1"): v.encode() for k, v in st["refs"].items()}, extra_store=st.get("extra", ()),
+                 packed=st.get("packed"), loose_after={k.encode("latin-1"): v.encode() for k, v in st.get("loose_after", {}).items()})
+        repo = sd.open()
+        pre_refs = read_refs(repo)
+        repo.close()
+        cmd = ["git", "--git-dir", str(client), "push", "--porcelain", f"--receive-pack={rp}"] + (["--atomic"] if atomic else []) + [str(sd.path)] + specs
+        rc, out = core.sh(cmd, env=core.clean_env(), timeout=120)
+        repo = sd.open()
+        post_refs = read_refs(repo)
+        post_missing = {n_: v for n_, v in post_refs.items() if not in_store(repo, v)}
+        repo.close()
+        flags = {}
+        for ln in out.splitlines():
+            parts = ln.split("\t")
+            if len(parts) >= 2 and len(parts[0]) == 1 and ":" in parts[1]:
+                flags[parts[1].split(":", 1)[1]] = parts[0]
+        ctx.count(stream, json.dumps(case, sort_keys=True), True, "atomic" if atomic else "plain")
+        brief = {"case": case, "git_output": out[-600:]}
+        for n_, v in post_missing.items():
+            ctx.oracle_fail(stream, brief, f"{n_!r} names {v!r} which the server does not have", None)
+        all_hold = True
+        for name, new in want.items():
+            post = post_refs.get(name.encode())
+            post = post.decode() if post else None
+            fl = flags.get(name)
+            ok = fl in (" ", "+", "-", "*", "=")
+            if fl is None:
+                ctx.oracle_fail(stream, brief, f"git printed no result for {name}", "git-push-no-result")
+                continue
+            if post != new:
+                all_hold = False
+            if ok and post != new:
+                ctx.oracle_fail(stream, brief, f"git reports {name} as pushed ({fl!r}) but the server ref is {post!r}, not {new!r}", "git-push-ok-but-not-applied")
+            pre = pre_refs.get(name.encode())
+            if not ok and post == new and (pre.decode() if pre else None) != new:
+                ctx.oracle_fail(stream, brief, f"git reports {name} as rejected ({fl!r}) but the server ref now holds {new!r}", "git-push-applied-but-rejected")
+        if atomic and not all_hold and post_refs != pre_refs:
+            why = "io-failure" if DF_CHILD.decode() in want else "unexplained"
+            ctx.oracle_fail(stream, brief, "atomic git push was applied partially", "wire-atomic-partial-apply-" + why)
+        if sum(1 for s in ctx.samples if s.get("stream") == stream) < 1:
+            ctx.sample({"stream": stream, "case": case, "git_push_output": out[-400:]})
+
+
+# ------------------------------------------------------------------------------------------------
+# status parser: model vs the real ReportStatusParser on hostile status reports
+
+def gen_status_lines(rng) -> list:
+    names = [b"refs/heads/m", b"refs/heads/a b", b"x", b"refs/tags/t", b""]
+    msgs = [b"failed to write", b"ok", b"stale info", b" x", b"a  b", b"non-fast-forward"]
+    out = [rng.choice([b"unpack ok\n", b"unpack ok\n", b"unpack ok\n", b"unpack ok", b" unpack ok \n", b"unpack failed\n", b"unpack\n", b"ok refs/heads/m\n"])]
+    for _ in range(rng.randint(0, 4)):
+        r = rng.random()
+        n, m = rng.choice(names), rng.choice(msgs)
+        if r < 0.35:
+            ln = b"ok " + n + b"\n"
+        elif r < 0.7:
+            ln = b"ng " + n + b" " + m + b"\n"
+        elif r < 0.75:
+            ln = b"ng " + n + b"\n"
+        elif r < 0.8:
+            ln = rng.choice([b"ok", b"ng", b"", b"\n", b"  \n"])
+        elif r < 0.85:
+            ln = b"xx " + n + b"\n"
+        elif r < 0.9:
+            ln = b"  ok " + n + b"  \t\n"
+        elif r < 0.95:
+            ln = b"ok  " + n + b"\n"
+        else:
+            ln = None
+        out.append(ln)
+    if rng.random() < 0.5:
+        out.append(None)
+    if rng.random() < 0.1:
+        out.append(b"ok late\n")
+    return out
+
+
+def real_parse(lines) -> str:
+    from dulwich import client as C
+    from dulwich.errors import GitProtocolError
+    p = C.ReportStatusParser()
+    try:
+        for ln in lines:
+            p.handle_packet(ln)
+        d = dict(p.check())
+    except C.SendPackError:
+        return "err:sendpack"
+    except GitProtocolError:
+        return "err:protocol"
+    except ValueError:
+        return "err:value"
+    return "ok:" + (",".join(f"{hx(k)}={'ok' if v is None else hx(v.encode())}" for k, v in d.items()) or "-")
+
+
+def _stream_parser(ctx, n):
+    rng = ctx.rng
+    cases = [gen_status_lines(rng) for _ in range(n)]
+    outs = ctx.driver.batch(["c06.parse " + " ".join("flush" if x is None else hx(x) for x in c) for c in cases])
+    for c, mo in zip(cases, outs):
+        if mo.startswith("ok:"):
+            seen = {}
+            for it in ([] if mo == "ok:-" else mo[3:].split(",")):
+                k, v = it.split("=")
+                seen[k] = v
+            mo = "ok:" + (",".join(f"{k}={v}" for k, v in seen.items()) or "-")
+        real = real_parse(c)
+        ctx.count("status.parse", tuple(c), True, real.split(":")[0] + (":" + real.split(":")[1] if real.startswith("err") else ""))
+        if mo != real:
+            ctx.disagree("status.parse", {"lines": [None if x is None else x.decode("latin-1") for x in c]}, mo, real, "parser")
